@@ -1,6 +1,8 @@
 package props
 
 import (
+	"bytes"
+	"compress/gzip"
 	"context"
 	"errors"
 	"fmt"
@@ -23,9 +25,11 @@ func C07(r *h.Run) {
 	kinds := []string{"unary", "client", "server", "bidi"}
 	timeouts := []string{"", "", "", "5000", "1", "0", "abc", "-5", "99999999999", "5S", "1n", "5s", "S", "100000000n", "+5S",
 		"00000005000", "00000000000000060000", "09999999999", "+0000060000", "1.5", "1h30", "0000000000", "9999999999"}
-	sents := []string{"", "", "", "identity", "tagA", "rle", "zstd", "gzip"}
+	// (names are matched exactly: a registered name in another letter case, or with blanks, is unknown)
+	sents := []string{"", "", "", "", "identity", "identity", "tagA", "tagA", "rle", "rle", "zstd", "zstd", "gzip", "gzip", "GZIP", "Gzip", "TagA", "TAGA", "Rle", "Identity", "gzip ", "tagA,gzip"}
 	accepts := []string{"", "tagA", "gzip,tagA", "zstd", "identity"}
 
+	c07GzipTruncated(r, rng.Fork("gzip-truncated"))
 	for i := 0; i < r.N(700, 9000); i++ {
 		proto := protos[rng.Intn(3)]
 		kind := kinds[rng.Intn(4)]
@@ -347,4 +351,104 @@ func timeoutInvalid(proto, th string) bool {
 		return true
 	}
 	return len(strings.TrimLeft(s, "0")) > 8
+}
+
+// c07GzipTruncated: a message compressed with the real gzip whose stream has lost the last
+// 1..8 bytes (its CRC-32 / length trailer) is not a message that decoded successfully: user code
+// must not receive it and the peer must see invalid_argument. The complete stream (cut 0) is the
+// control: it must be delivered.
+func c07GzipTruncated(r *h.Run, rng *h.Rng) {
+	for _, proto := range []string{"connect", "grpc", "grpcweb"} {
+		for _, kind := range []string{"unary", "client", "server", "bidi"} {
+			for _, cut := range []int{0, 1, 4, 7, 8} {
+				payload := genPayload(rng, 20+rng.Intn(200))
+				var zb bytes.Buffer
+				zw := gzip.NewWriter(&zb)
+				_, _ = zw.Write(payload)
+				_ = zw.Close()
+				wire := zb.Bytes()[:zb.Len()-cut]
+				cfg := envCfg{Proto: proto}
+				unary := kind == "unary"
+				body := h.Frame(1, wire)
+				if unary && proto == "connect" {
+					body = wire
+				}
+				calls := 0
+				var got [][]byte
+				hopts := []connect.HandlerOption{connect.WithCodec(h.ToyCodec{})}
+				var handler *connect.Handler
+				switch kind {
+				case "unary":
+					handler = connect.NewUnaryHandler("/verif.Svc/M", func(_ context.Context, req *connect.Request[h.Raw]) (*connect.Response[h.Raw], error) {
+						calls++
+						got = append(got, append([]byte(nil), req.Msg.B...))
+						return connect.NewResponse(&h.Raw{B: []byte("ok")}), nil
+					}, hopts...)
+				case "client":
+					handler = connect.NewClientStreamHandler("/verif.Svc/M", func(_ context.Context, s *connect.ClientStream[h.Raw]) (*connect.Response[h.Raw], error) {
+						calls++
+						for s.Receive() {
+							got = append(got, append([]byte(nil), s.Msg().B...))
+						}
+						if err := s.Err(); err != nil {
+							return nil, err
+						}
+						return connect.NewResponse(&h.Raw{B: []byte("ok")}), nil
+					}, hopts...)
+				case "server":
+					handler = connect.NewServerStreamHandler("/verif.Svc/M", func(_ context.Context, req *connect.Request[h.Raw], s *connect.ServerStream[h.Raw]) error {
+						calls++
+						got = append(got, append([]byte(nil), req.Msg.B...))
+						return s.Send(&h.Raw{B: []byte("one")})
+					}, hopts...)
+				default:
+					handler = connect.NewBidiStreamHandler("/verif.Svc/M", func(_ context.Context, s *connect.BidiStream[h.Raw, h.Raw]) error {
+						calls++
+						for {
+							m, err := s.Receive()
+							if err != nil {
+								if errors.Is(err, io.EOF) {
+									break
+								}
+								return err
+							}
+							got = append(got, append([]byte(nil), m.B...))
+						}
+						return s.Send(&h.Raw{B: []byte("one")})
+					}, hopts...)
+				}
+				req := httptest.NewRequest("POST", "/verif.Svc/M", nil)
+				req.ProtoMajor, req.ProtoMinor = 2, 0
+				req.Body = h.NewChunkBody([][]byte{body}, h.FinCleanEOF)
+				req.Header.Set("Content-Type", cfg.contentType(unary))
+				req.Header.Set(cfg.encodingHeader(unary), "gzip")
+				rec := httptest.NewRecorder()
+				timedOut, p := withWatchdog(5*time.Second, func() { handler.ServeHTTP(rec, req) })
+				in := map[string]any{"proto": proto, "kind": kind, "request_encoding": "gzip", "gzip_stream_bytes_removed_from_end": cut, "message_bytes": len(payload), "body_hex": h.Hex(body)}
+				r.Eval("gzip_truncated", fmt.Sprint(proto, kind, cut))
+				if timedOut || p != nil {
+					r.Fail(h.Failure{Key: "serve/hang-or-panic", Family: "gzip_truncated", What: fmt.Sprint("hang or panic: ", p, " timeout=", timedOut), Input: in})
+					continue
+				}
+				peerKind := "server"
+				if unary && proto == "connect" {
+					peerKind = "unary"
+				}
+				code, _ := peerError(proto, peerKind, rec)
+				r.Sample("gzip_truncated", map[string]any{"in": in, "peer_code": code, "user_calls": calls, "delivered": len(got)})
+				if cut == 0 {
+					if len(got) != 1 || !bytes.Equal(got[0], payload) || code != "" {
+						r.Fail(h.Failure{Key: "serve/valid-compressed-refused", Family: "gzip_truncated", What: "a message compressed with a complete gzip stream was not delivered intact", Input: in, Actual: fmt.Sprint(code, " delivered=", len(got))})
+					}
+					continue
+				}
+				if len(got) != 0 {
+					r.Fail(h.Failure{Key: "serve/undecodable-delivered", Family: "gzip_truncated", What: "user code received a message whose gzip stream is incomplete (checksum trailer missing)", Input: in, Actual: hexList(got)})
+				}
+				if code != "invalid_argument" {
+					r.Fail(h.Failure{Key: "serve/undecodable-not-invalid-argument", Family: "gzip_truncated", What: "an incomplete gzip stream did not reach the peer as invalid_argument", Input: in, Actual: code})
+				}
+			}
+		}
+	}
 }
